@@ -498,7 +498,7 @@ def c18_dyn_case(args):
         m = llsym.Machine(mod)
         install_natives(m)
         cxxnatives.install(m)
-        m.step_budget = 10 ** 12
+        m.step_budget = 8_000_000      # ~100x the largest legitimate run: a loop that does not end is an EngineLimit
         binp = m.alloc(len(binv) + 1)
         _put(m, binp, list(binv))
         try:
